@@ -300,7 +300,7 @@ def illegal_move(st: State, rng: random.Random, pol: Policy):
     return 'select_runout_count', A(has=True, amt=rng.choice([0, -1, 2]), p=rng.randint(1, n))
 
 
-def play_hand(tid: int, spec: dict, rng: random.Random, pol: Policy, max_steps=400) -> dict:
+def play_hand(tid: int, spec: dict, rng: random.Random, pol: Policy, max_steps=400, keep_state=None) -> dict:
     """one hand on the real engine, from construction to the end, as a trace record"""
     werr = spec.get('werr', True)
     mic = []
@@ -357,4 +357,6 @@ def play_hand(tid: int, spec: dict, rng: random.Random, pol: Policy, max_steps=4
         if ev['out'].startswith('Other:'):
             break
     rec['finished'] = not st.status
+    if keep_state is not None:
+        keep_state['state'] = st
     return rec
